@@ -1,4 +1,5 @@
 import FgaVerif.Proofs.WGraph
+import FgaVerif.Proofs.WGraphDst
 /-! # C10 — the weighted-graph structure mirrors the model
 
     Theorems about `Model/WGraph.lean`, the port of the construction half of
@@ -28,6 +29,9 @@ import FgaVerif.Proofs.WGraph
       only grow at the end.  Hence operands appear in source order and
       `exclusion_subtract_last` — the edges of the subtract operand come after those of the base.
 
+    * `edges_end_in_nodes` — no dangling edge: every edge of a built graph ends in a node of the graph
+      (an invariant carried through every construction step, `Proofs/WGraphDst.lean`).
+
     "Building never modifies the model" holds by construction in the port (the model is an immutable
     value); of the code it is checked by the harness (model compared before/after every `Build`).
 
@@ -38,6 +42,11 @@ open FgaVerif.Model FgaVerif.Model.WGraph
 
 theorem nodes_unique (m : Model) (g : G) (h : build m = .ok g) :
     (g.nodes.map (·.uniqueLabel)).Nodup := (build_inv m g h).labels
+
+/-- no dangling edge -/
+theorem edges_end_in_nodes (m : Model) (g : G) (h : build m = .ok g) (src : String) :
+    ∀ e ∈ edgesOf g src, e.dst ∈ g.nodes.map (·.uniqueLabel) :=
+  build_dst m g h src
 
 /-- every type and every defined relation of the model has its node -/
 theorem types_and_relations_have_nodes (m : Model) (g : G) (h : build m = .ok g) :
